@@ -9,6 +9,53 @@ from .. import core, fixedq
 KERAS3_PASS = True   # thorough tier repeats the tie under the pinned Keras 3
 
 
+def _judge_sign(run, r, key0):
+  """the clauses of the property on a two-code format {lo, hi} (quantized_linear(1, keep_negative=1): +-qs/2;
+  quantized_bits(1, keep_negative=1): +-alpha), judged on the real outputs in exact arithmetic, independent of
+  the model (Props.C02: C02_linear_sign_codes / _never_zero / _nearest / _is_code_nearest / _saturate,
+  C02_bits_sign_codes / _nearest):
+    code_set  every output is one of the two codes (in particular never 0: "otherwise the binary quantizer
+              would have three output values")
+    nearest   no code is strictly closer to the input (in range: at most half the code distance away)
+    saturate  at and beyond a code: that code
+  Band device (DESIGN 3.2) for quantized_linear only: for -qs*2^-24 <= x < 0 the float32 sum x/qs - 1/2 is
+  exactly -1/2 and tf.round(-1/2) = -0, so the real code may take the upper code there: `nearest` gets the
+  slack qs*2^-24 (the input is that close to the tie at 0)."""
+  codes = fixedq.sign_codes(r.kind, r.cfg)
+  if codes is None:
+    run.count("sign_format_unjudged")      # 0-bit unsigned quantized_bits: never generated
+    return
+  lo, hi, gain = codes
+  span = hi - lo
+  tol = span / 2 ** 24 if r.kind == "qlinear" else F(0)
+  key = dict(key0, format="sign-1bit")
+  run.count("sign_records")
+  for x, y in zip(r.xs, r.ys):
+    yy = y / gain
+    run.count("sign_points")
+    if x == 0:
+      run.count("sign_points_at_zero")
+    if yy != lo and yy != hi:
+      run.violate("code_set", dict(key, why="zero-output" if y == 0 else "not-a-code",
+                                   at="zero-input" if x == 0 else "nonzero-input"),
+                  {"config": r.label, "x": str(x), "y": str(y), "codes": [str(lo * gain), str(hi * gain)]},
+                  mirrored=r.mirrored)
+      continue
+    if x >= hi or x <= lo:
+      want = hi if x >= hi else lo
+      if yy != want:
+        run.violate("saturate", dict(key, region="high" if x >= hi else "low"),
+                    {"config": r.label, "x": str(x), "y": str(y), "expected": str(want * gain)},
+                    mirrored=r.mirrored)
+    else:
+      run.count("in_range")
+      best = min(abs(lo - x), abs(hi - x))
+      if abs(yy - x) > best + tol or abs(yy - x) > span / 2 + tol:
+        run.violate("nearest", dict(key, region="in-range", why="other-code-closer"),
+                    {"config": r.label, "x": str(x), "y": str(y), "codes": [str(lo * gain), str(hi * gain)]},
+                    mirrored=r.mirrored)
+
+
 def run(run: core.Run, tier: str):
   import tensorflow as tf
   recs = fixedq.collect(run, tier, "C02")
@@ -30,7 +77,16 @@ def run(run: core.Run, tier: str):
       "after leaving scope(1) / object constructed in the training phase / through QActivation with and without "
       "training=False / inside a tf.function), and with the flag OFF in the training phase: same model "
       "(QKV.qbitsS etc. with the flag and the phase, arbitrary draws), same clauses nearest / saturate / monotone "
-      "/ idempotent, plus `deterministic`: the same call twice gives the same tensor")
+      "/ idempotent, plus `deterministic`: the same call twice gives the same tensor; "
+      "PLUS family sign-1bit (round 4): the 1-bit SIGN formats quantized_linear(1, keep_negative=1) (codes +-qs/2) "
+      "and quantized_bits(1, keep_negative=1) (codes +-alpha) in EVERY run and judged on their code set (clause "
+      "`code_set`: one of the two codes, never 0; `nearest`: no code strictly closer; `saturate`; monotone; "
+      "idempotent) wherever they occur (base, per-channel, reassign, stoch-phase, and this family): fresh objects "
+      "on the breakpoint stream, ONE object through every form the input zero can take (tensor / numpy / list / "
+      "float64 / python scalar / 0-d tensor / ranks 2-5 / all-zero and all-negative-zero tensors / int32 / "
+      "tf.Variable / QActivation / tf.function / the text route through get_quantizer / once more), the "
+      "stochastic flag x phase routes, per-channel alpha tensors, and alpha='auto' / 'auto_po2' / "
+      "_set_trainable_parameter() given the scale the object reports (an all-zero channel included)")
   fixedq.compare(run, recs, with_reporters=False)
   for r in recs:
     if r.train:
@@ -46,8 +102,10 @@ def run(run: core.Run, tier: str):
                                             "second call": bad[0][2], "n": len(bad)}, mirrored=r.mirrored)
     lat = fixedq.lattice(r.kind, r.cfg)
     if lat is None:
-      # 1-bit sign formats: only monotonicity and idempotence apply
+      # 1-bit SIGN formats (strengthening round 4): two codes one step apart; the clauses are judged on the
+      # code set directly (below), then monotonicity and idempotence as for every format
       step = lo = hi = gain = None
+      _judge_sign(run, r, key0)
     else:
       step, lo, hi, gain = lat
     leaky = r.kind in ("qrelu", "qrelusig") and r.cfg.get("slope_log") is not None
